@@ -43,6 +43,9 @@ func init() {
 			{Name: "concat-merges", File: "extractor/filesystem/list/list.go", Old: "maps.Copy(result, m)", New: "for k, v := range m {\n\t\t\tresult[k] = append(result[k], v...)\n\t\t}", Rule: "D2-groups", Site: "extractor/filesystem/list.concat"},
 			{Name: "filter-early-return", File: "extractor/standalone/list/list.go", Old: "	result := []standalone.Extractor{}\n	for _, ex := range exs {", New: "	result := []standalone.Extractor{}\n	if !capabs.RunningSystem {\n		return result\n	}\n	for _, ex := range exs {", Rule: "D3-filter", Site: "standalone/list.FilterByCapabilities"},
 			{Name: "enabled-set-records-detector-name", File: "scalibr.go", Old: "			enabledExtractors[e] = struct{}{}\n", New: "			enabledExtractors[d.Name()] = struct{}{}\n", Rule: "D6-enable", Site: "EnableRequiredExtractors"},
+			{Name: "validate-directfs-inverted", File: "plugin/plugin.go", Old: "	if p.Requirements().DirectFS && !capabs.DirectFS {", New: "	if p.Requirements().DirectFS && capabs.DirectFS {", Rule: "D5-decision-table", Site: "ValidateRequirements"},
+			{Name: "validate-unix-or", File: "plugin/plugin.go", Old: "		if capabs.OS != OSLinux && capabs.OS != OSMac {", New: "		if capabs.OS != OSLinux || capabs.OS != OSMac {", Rule: "D5-decision-table", Site: "ValidateRequirements"},
+			{Name: "validate-network-any-dropped", File: "plugin/plugin.go", Old: "	if p.Requirements().Network != NetworkAny && p.Requirements().Network != capabs.Network {", New: "	if p.Requirements().Network != capabs.Network {", Rule: "D5-decision-table", Site: "ValidateRequirements"},
 		},
 		Neutral: c19Neutral,
 	})
@@ -65,6 +68,8 @@ func runC19(p *Prog, r *Report) {
 	r.Rule("D4-required", "detector-required extractors resolve and their requirements are implied")
 	r.Rule("D5-fields", "ValidateRequirements reads every Capabilities field of plugin and environment")
 	r.Rule("D6-enable", "EnableRequiredExtractors: error only if both registries fail; append only on success")
+	r.Rule("D5-decision-table", "ValidateRequirements accepts exactly under the audited combination of its atomic tests")
+	c19DecisionTable(p, r)
 
 	regs := []*registry{
 		{kind: "filesystem", pkgRel: "extractor/filesystem/list", namesVar: "extractorNames"},
@@ -821,3 +826,107 @@ func ctorNames(row *initRow) string {
 	}
 	return strings.Join(ns, ",")
 }
+
+// c19DecisionTable: the acceptance decision of plugin.ValidateRequirements, taken as a boolean
+// function of its atomic tests (canonical form obtained from the branch structure, no values
+// computed), equals the documented requirement semantics:
+//
+//	accept  ⇔  (req.OS == Unix ? env.OS ∈ {Linux, Mac} : req.OS == Any ∨ req.OS == env.OS)
+//	         ∧ (req.Network == Any ∨ req.Network == env.Network)
+//	         ∧ (req.DirectFS ⇒ env.DirectFS) ∧ (req.RunningSystem ⇒ env.RunningSystem)
+//
+// This is the model D4 uses to decide that auto-enabled extractors validate; here the model itself
+// is checked against the code.
+func c19DecisionTable(p *Prog, r *Report) {
+	fn := p.Func("plugin", "ValidateRequirements")
+	if fn == nil {
+		r.Undecided("D5-decision-table", "anchor:plugin.ValidateRequirements", "-", "not found")
+		return
+	}
+	atoms, table, ok := decisionTableRaw(fn, true)
+	site := "plugin.ValidateRequirements"
+	if !ok {
+		r.Undecided("D5-decision-table", site, p.Pos(fn.Pos()), "the validator is no longer a loop-free combination of at most 12 atomic tests")
+		return
+	}
+	pk := p.TPkg("plugin")
+	cval := func(name string) string {
+		c, ok := pk.Types.Scope().Lookup(name).(*types.Const)
+		if !ok {
+			return "?"
+		}
+		return c.Val().ExactString() + ":" + typeShortFull(c.Type())
+	}
+	eq := func(a, b string) string {
+		if a > b {
+			a, b = b, a
+		}
+		return a + " == " + b
+	}
+	const reqOS, envOS = "plugin.Plugin.Requirements(param0).OS", "param1.OS"
+	const reqNet, envNet = "plugin.Plugin.Requirements(param0).Network", "param1.Network"
+	names := map[string]string{
+		eq(cval("OSUnix"), reqOS):                          "reqUnix",
+		eq(cval("OSAny"), reqOS):                           "reqAnyOS",
+		eq(cval("OSLinux"), envOS):                         "envLinux",
+		eq(cval("OSMac"), envOS):                           "envMac",
+		eq(reqOS, envOS):                                   "sameOS",
+		eq(cval("NetworkAny"), reqNet):                     "reqAnyNet",
+		eq(reqNet, envNet):                                 "sameNet",
+		eq(cval("NetworkOffline"), envNet):                 "envOffline", // only selects the message
+		eq(cval("NetworkOnline"), envNet):                  "envOnline",
+		"plugin.Plugin.Requirements(param0).DirectFS":      "reqFS",
+		"param1.DirectFS":                                  "envFS",
+		"plugin.Plugin.Requirements(param0).RunningSystem": "reqRun",
+		"param1.RunningSystem":                             "envRun",
+	}
+	var vars []string
+	for _, a := range atoms {
+		v, known := names[a]
+		if !known {
+			r.Undecided("D5-decision-table", site+":atom", p.Pos(fn.Pos()), "ValidateRequirements tests something the audited requirement semantics does not mention: "+a)
+			return
+		}
+		vars = append(vars, v)
+	}
+	need := []string{"reqUnix", "reqAnyOS", "envLinux", "envMac", "sameOS", "reqAnyNet", "sameNet", "reqFS", "envFS", "reqRun", "envRun"}
+	have := map[string]bool{}
+	for _, v := range vars {
+		have[v] = true
+	}
+	for _, n := range need {
+		if !have[n] {
+			r.Fail("D5-decision-table", site+":"+n, p.Pos(fn.Pos()), "ValidateRequirements no longer makes the test '"+n+"' of the requirement semantics: that requirement is not enforced (or enforced differently)")
+			return
+		}
+	}
+	bad := -1
+	for row := 0; row < len(table); row++ {
+		val := map[string]bool{}
+		for k, v := range vars {
+			val[v] = row&(1<<k) != 0
+		}
+		var osOK bool
+		if val["reqUnix"] {
+			osOK = val["envLinux"] || val["envMac"]
+		} else {
+			osOK = val["reqAnyOS"] || val["sameOS"]
+		}
+		model := osOK && (val["reqAnyNet"] || val["sameNet"]) && (!val["reqFS"] || val["envFS"]) && (!val["reqRun"] || val["envRun"])
+		if model != (table[row] == '1') {
+			bad = row
+			break
+		}
+	}
+	if bad < 0 {
+		r.OK("D5-decision-table", site, p.Pos(fn.Pos()), fmt.Sprintf("acceptance equals the requirement semantics on all %d combinations of its %d tests", len(table), len(atoms)))
+		return
+	}
+	var desc []string
+	for k, v := range vars {
+		desc = append(desc, fmt.Sprintf("%s=%v", v, bad&(1<<k) != 0))
+	}
+	r.Fail("D5-decision-table", site, p.Pos(fn.Pos()), fmt.Sprintf("ValidateRequirements decides differently from the requirement semantics when %s: it %s", strings.Join(desc, " "), map[bool]string{true: "accepts a plugin whose requirements are not met", false: "rejects a plugin whose requirements are met"}[table[bad] == '1']))
+}
+
+func typeShortFull(t types.Type) string { return types.TypeString(t, nil) }
